@@ -31,13 +31,13 @@ def run(ctx: Ctx):
         "citation classes are the ones defined in eyecite/models.py (no monkey-patching)",
     ]
     R = fr.FoldRules(ctx)
-    R.o1_single_fold()
-    R.o2_single_append_site()
-    R.o3_resolver_provenance()
-    R.o4_full_branch()
-    R.o5_dispatch_classes()
-    R.o6_resource_equality()
-    R.dynamic_features_absent()
+    ctx.guard(R.o1_single_fold)
+    ctx.guard(R.o2_single_append_site)
+    ctx.guard(R.o3_resolver_provenance)
+    ctx.guard(R.o4_full_branch)
+    ctx.guard(R.o5_dispatch_classes)
+    ctx.guard(R.o6_resource_equality)
+    ctx.guard(R.dynamic_features_absent)
     ctx.floor("O1", 3)
     ctx.floor("O2", 8)
     ctx.floor("O3", 10)
